@@ -61,6 +61,35 @@ def exprToJson : Expr → Json
 
 def floatPi : Float := 3.141592653589793
 
+/-- Maclaurin series of the error function, `2/sqrt(pi) * sum (-1)^n x^(2n+1) / (n! (2n+1))`
+(used for |x| <= 3: 90 terms, relative error below 1e-13) -/
+def erfSeries (x : Float) : Float := Id.run do
+  let mut term := x
+  let mut sum := x
+  for n in [1:90] do
+    let nf := n.toFloat
+    term := -term * x * x / nf
+    sum := sum + term / (2.0 * nf + 1.0)
+  return 2.0 / Float.sqrt floatPi * sum
+
+/-- continued fraction of the complementary error function for x > 3:
+`erfc x = exp(-x^2)/sqrt(pi) / (x + (1/2)/(x + 1/(x + (3/2)/(x + ...))))`, 80 levels -/
+def erfcFrac (x : Float) : Float := Id.run do
+  let mut f := x
+  for i in [0:80] do
+    let k := (80 - i).toFloat
+    f := x + (k / 2.0) / f
+  return Float.exp (-(x * x)) / Float.sqrt floatPi / f
+
+/-- the error function (py-pde's special function `erf` = `scipy.special.erf`).  Lean's `Float`
+has no erf: this is a numerical implementation, accurate to 1e-13 relative (measured against
+mpmath; the harness compares every value with libm's erf at 1e-9 as its second reference).
+In the AST `erf` is an ordinary unary function symbol: all theorems hold for any table. -/
+def floatErf (x : Float) : Float :=
+  let a := Float.abs x
+  if a <= 3.0 then erfSeries x
+  else if x > 0.0 then 1.0 - erfcFrac a else -(1.0 - erfcFrac a)
+
 /-- libm table (Python's `math`/numpy use the same C library functions) -/
 def floatTab : FunTab Float where
   heav := heaviside
@@ -75,6 +104,7 @@ def floatTab : FunTab Float where
     else if f = "asin" then Float.asin x else if f = "acos" then Float.acos x
     else if f = "asinh" then Float.asinh x else if f = "atanh" then Float.atanh x
     else if f = "floor" then Float.floor x else if f = "ceiling" then Float.ceil x
+    else if f = "erf" then floatErf x
     else if algFun1 f then (algTab : FunTab Float).f1 f x
     else 0.0 / 0.0
   f2 := fun f x y =>
@@ -86,7 +116,7 @@ def floatTab : FunTab Float where
 
 def floatFun1 : List String :=
   ["sin", "cos", "tan", "exp", "log", "sqrt", "tanh", "sinh", "cosh", "atan", "asin", "acos",
-   "asinh", "atanh", "floor", "ceiling", "abs", "Abs", "sign"]
+   "asinh", "atanh", "floor", "ceiling", "erf", "abs", "Abs", "sign"]
 def floatFun2 : List String := ["pow", "hypot", "atan2", "Max", "Min"]
 
 /-- every function name of the expression is interpreted (by the table or a user definition) -/
